@@ -326,15 +326,40 @@ func ruleChunkClamp(c *Ctx, r *Rep, tier string) {
 		}
 		walk(sl.High, 0)
 	})
-	// the local `last` holds the reader's LastChunk() taken on entry
-	lastIsLastChunk := false
-	allInstrs(fn, func(ins ssa.Instruction) {
-		if st, ok := ins.(*ssa.Store); ok {
-			if al, ok := st.Addr.(*ssa.Alloc); ok && strings.HasSuffix(symKey(st.Val), ".LastChunk()") && singleStore(al) != nil {
-				lastIsLastChunk = true
+	// a local that only ever holds the reader's LastChunk() (taken on entry, and
+	// again after the reader was moved to the next chunk): positionOf says which
+	// field of it a value reads
+	isPosLocal := func(al *ssa.Alloc) bool {
+		n, all := 0, true
+		allInstrs(fn, func(ins ssa.Instruction) {
+			if st, ok := ins.(*ssa.Store); ok && st.Addr == ssa.Value(al) {
+				n++
+				if !strings.HasSuffix(symKey(st.Val), ".LastChunk()") {
+					all = false
+				}
 			}
+		})
+		return n > 0 && all
+	}
+	positionOf := func(v ssa.Value, field string) bool {
+		if strings.HasSuffix(symKey(v), ".LastChunk().End."+field) {
+			return true
 		}
-	})
+		ld, ok := stripConv(v).(*ssa.UnOp)
+		if !ok || ld.Op != token.MUL {
+			return false
+		}
+		f2, ok := ld.X.(*ssa.FieldAddr)
+		if !ok || fieldVarOfAddr(f2) == nil || fieldVarOfAddr(f2).Name() != field {
+			return false
+		}
+		f1, ok := f2.X.(*ssa.FieldAddr)
+		if !ok || fieldVarOfAddr(f1) == nil || fieldVarOfAddr(f1).Name() != "End" {
+			return false
+		}
+		al, ok := f1.X.(*ssa.Alloc)
+		return ok && isPosLocal(al)
+	}
 	r.Instance(rule, 1)
 	why := ""
 	if cur == nil {
@@ -344,7 +369,7 @@ func ruleChunkClamp(c *Ctx, r *Rep, tier string) {
 			if k, ok := constInt(e); ok && k == 0 {
 				continue
 			}
-			if k := symKey(e); !strings.HasSuffix(k, ".LastChunk().End.Block") && !(k == "last.End.Block" && lastIsLastChunk) {
+			if !positionOf(e, "Block") {
 				why += " cursor takes " + symKey(e) + ", not the reader's in-block position LastChunk().End.Block;"
 				continue
 			}
@@ -359,12 +384,8 @@ func ruleChunkClamp(c *Ctx, r *Rep, tier string) {
 				if !isBo || bo.Op != token.EQL {
 					continue
 				}
-				kx, ky := symKey(bo.X), symKey(bo.Y)
-				pos := func(k string) bool {
-					return strings.HasSuffix(k, ".LastChunk().End.File") || (k == "last.End.File" && lastIsLastChunk)
-				}
-				end := func(k string) bool { return k == "$0.chunks[0].End.File" }
-				if !((pos(kx) && end(ky)) || (pos(ky) && end(kx))) {
+				end := func(v ssa.Value) bool { return symKey(v) == "$0.chunks[0].End.File" }
+				if !((positionOf(bo.X, "File") && end(bo.Y)) || (positionOf(bo.Y, "File") && end(bo.X))) {
 					continue
 				}
 				if dominatedByEdge(fn, b, 0, pred) || (b == pred && pred.Succs[0] == cur.Block()) || b.Succs[0] == pred {
